@@ -185,18 +185,18 @@ Proof. vm_compute. repeat split; reflexivity. Qed.
 Definition w_cleanup : prog := ([], Block 1%N [UnwindProtect 1%N (KI 1) [ReturnFrom 1%N (KI 2)]; KI 3]).
 (* (defun g () (return-from zz 3)) (block zz (g) 5): InBlock walks the callers' scopes: not lexical *)
 Definition w_dyn : prog := ([[ReturnFrom 7%N (KI 3)]], Block 7%N [CallU 0; KI 5]).
-(* (when (ignore-errors (error "x")) 1): the two-valued result is not nil *)
+(* (when (ignore-errors (error "x")) 1): the two-valued result is not nil; when tests its first value since repo_fixes/C01-19: nil in M and S *)
 Definition w_mv : prog := ([], When (IgnoreErrors [Signal CError]) [KI 1]).
 (* (block a (block b (return-from a (return-from b 1)) 2) 3): a marker as the value of a return-from *)
 Definition w_nested : prog := ([], Block 1%N [Block 2%N [ReturnFrom 1%N (ReturnFrom 2%N (KI 1)); KI 2]; KI 3]).
 (* (cond (5)): a clause without body yields the value of its test (repaired by 0170ebc; the guard still asks for clause bodies) *)
 Definition w_cond_nobody : prog := ([], Cond [(KI 5, [])]).
 Theorem other_refuted :
-  guard w_cleanup = false /\ guard w_dyn = false /\ guard w_mv = false /\ guard w_nested = false /\
+  guard w_cleanup = false /\ guard w_dyn = false /\ guard w_mv = true /\ guard w_nested = false /\
   guard w_cond_nobody = false /\
   fst (mrun 60 w_cleanup st0) = MVal (VInt 3) /\ fst (srun 60 w_cleanup st0) = Normal (VInt 2) /\
   fst (mrun 60 w_dyn st0) = MVal (VInt 3) /\ fst (srun 60 w_dyn st0) = Err CControl /\
-  fst (mrun 60 w_mv st0) = MVal (VInt 1) /\ fst (srun 60 w_mv st0) = Normal VNil /\
+  fst (mrun 60 w_mv st0) = MVal VNil /\ fst (srun 60 w_mv st0) = Normal VNil /\
   fst (mrun 60 w_nested st0) = MVal (VRetM 2%N (VInt 1)) /\ fst (srun 60 w_nested st0) = Normal (VInt 3) /\
   fst (mrun 60 w_cond_nobody st0) = MVal (VInt 5) /\ fst (srun 60 w_cond_nobody st0) = Normal (VInt 5).
 Proof. vm_compute. repeat split; reflexivity. Qed.
